@@ -229,7 +229,7 @@ class DbModel:
 def read_state(conn):
     """observable state through a connection: {'root': keys, name: attrs}"""
     root = conn.root()
-    out = {'root': tuple(sorted(root.keys()))}
+    out = {'root': tuple(sorted(root.keys()))}     # (names only; the model's root also carries generations)
     for k in root.keys():
         o = root[k]
         o._p_activate()
@@ -242,7 +242,7 @@ def expected_view(state):
     for k, v in state.items():
         if v is ABSENT:
             continue
-        out[k] = v
+        out[k] = tuple(sorted(x[0] for x in v)) if k == 'root' else v
     return out
 
 
@@ -296,7 +296,7 @@ def execute_db(case, out):
             o.n = 0
             root[name] = o
             w[name] = {'n': 0}
-        w['root'] = tuple(sorted(w))
+        w['root'] = tuple(sorted((k2, 0) for k2 in w))
         commit('setup', w)
         env['tm2'].begin()
         env['snap2'] = expected_view(model.state())
@@ -331,7 +331,8 @@ def execute_db(case, out):
                 o = Counter()
                 o.n = 1
                 root[name] = o
-                keys = tuple(sorted(set(cur['root']) | {name}))
+                env['gen'] = env.get('gen', 0) + 1      # a re-created object is another object (another oid)
+                keys = tuple(sorted(set(cur['root']) | {(name, env['gen'])}))
                 commit('create', {name: {'n': 1}, 'root': keys})
             elif k == 'undo':
                 log = env['db'].undoLog(0, 20)
